@@ -31,6 +31,10 @@ type zE struct {
 	Skip int `json:"-"`
 	*ZIn
 }
+type zOut struct {
+	ZIn
+	Y int
+}
 type zMyInt int64
 type zMyU8 uint8
 type zMyStr string
@@ -176,6 +180,23 @@ func zooCases() map[string]zooCase {
 		both(function(o){ o.length = 2; return o.length; });
 		both(function(o){ o[2] = 6; return o.length; });
 		r.join()`)
+	strmap := func(script string) zooCase {
+		return zooCase{func(vm *otto.Otto) func() string {
+			sm := map[string]int{"a": 1, "b": 2, "c": 3, "d": 4, "e": 5, "f": 6}
+			vm.Set("m", sm)
+			return func() string { return fmt.Sprint(len(sm)) }
+		}, script}
+	}
+	m["map_forin_delete_during"] = strmap(`var seen = 0; for (var k in m) { seen++; delete m.a; delete m.b; delete m.c; delete m.d; delete m.e; delete m.f; } "" + seen`)
+	m["map_enumeration_order"] = strmap(`var first = Object.keys(m).join(), same = true; for (var i = 0; i < 30; i++) { if (Object.keys(m).join() !== first) same = false; } same ? "stable" : "unstable"`)
+	m["slice_forin_shrink_during"] = slice(`var seen = []; for (var i in s) { seen.push(i); s.length = 1; } seen.join()`)
+	m["struct_promoted_enumeration"] = zooCase{func(vm *otto.Otto) func() string { vm.Set("st", &zOut{ZIn: ZIn{A: "x", B: 2}, Y: 3}); return none },
+		`("A" in st) + "," + st.A + "," + st.hasOwnProperty("B") + "|" + Object.keys(st).sort().join() + "|" + Object.getOwnPropertyNames(st).sort().join()`}
+	m["nested_container_identity"] = zooCase{func(vm *otto.Otto) func() string {
+		vm.Set("mm", map[string]interface{}{"a": []interface{}{1}, "p": &zT{C: 1}})
+		return none
+	}, `(mm.a === mm.a) + "," + (mm.p === mm.p) + "," + (mm === mm)`}
+	m["setlength_thrown_value"] = slice(`try { s.length = {valueOf: function(){ throw 42; }}; "no-throw" } catch (e) { typeof e + ":" + e }`)
 	return m
 }
 
